@@ -344,18 +344,9 @@ func init() {
 				}
 			}
 			// stale-timeout filter is exactly "older height/round/step"
-			var conds []string
-			for _, ea := range condEdges(f) {
-				conds = append(conds, w.canonAtom(ea.A))
-			}
+			conds := w.condAtomsDeep(f)
 			for _, need := range []string{"rs.Height != ti.Height", "rs.Round > ti.Round", "rs.Round == ti.Round", "rs.Step > ti.Step"} {
-				found := false
-				for _, s := range conds {
-					if s == need {
-						found = true
-					}
-				}
-				c.Check(found, fk+" :: stale filter has "+need, w.pos(f.Pos()), "present", "the filter that discards timeouts no longer compares "+need)
+				c.Check(conds[need], fk+" :: stale filter has "+need, w.pos(f.Pos()), "present", "the filter that discards timeouts no longer compares "+need)
 			}
 		}
 	})
